@@ -147,7 +147,7 @@ def sec_cc_conjugation(rep):
                             va, vp = views[anti], views[part]
                             if isinstance(va, tuple) or isinstance(vp, tuple):
                                 return [("both-raise-alike", va, vp)]
-                            sgn = -1 if H.obs_name(kind, flavor).is_parity_violating else 1
+                            sgn = -1 if kind in H.PV_KINDS else 1
                             out = [("same-coefficient-objects", sorted(map(repr, va)), sorted(map(repr, vp)))]
                             for key in va:
                                 if key not in vp:
@@ -159,6 +159,49 @@ def sec_cc_conjugation(rep):
                             return out
 
                         rep.check(f"C13/cc-conjugation/kernels/{anti}/{scheme}{nf_ff}/{kind}_{flavor}/nf={nf}", case, sy, kind="lemma")
+
+
+def sec_cc_conjugation_targets(rep):
+    """The conjugation relation on nuclear targets: the kernels as handed to the convolution
+    (Combiner.collect_elems, i.e. AFTER the isospin rotation) of an anti-lepton beam are the
+    charge-conjugated ones of the lepton beam, for proton, neutron and iron alike (the rotation
+    commutes with charge conjugation; a rotation applied to one beam only breaks it).  The collectors
+    branch on discrete data only, so generic concrete weights (pseudo-random contract values of
+    get_weight, the same for both beams) decide the linear relation."""
+    sy = H.Sy().numeric({"x": 0.01, "Q2": 5.0e4, "m2c": 2.0, "m2b": 20.0, "m2t": 3.0e4})
+    pairs = (("antineutrino", "neutrino"), ("positron", "electron"))
+    for anti, part in pairs:
+        for scheme, nf_ff in (("ZM-VFNS", 3), ("FFNS", 3), ("FFNS", 4), ("FFN0", 3), ("FONLL-FFNS", 4), ("FONLL-FFN0", 4)):
+            for kind in ("F2", "FL", "F3"):
+                for flavor in ("light", "total", "charm", "bottom"):
+                    for target in ((1, 1), (0, 1), (26, 56), (82, 208)):
+                        nf = 4 if scheme == "ZM-VFNS" else nf_ff
+                        rep.cases += 1
+                        name = f"C13/cc-conjugation/kernels-after-isospin/{anti}/{scheme}{nf_ff}/{kind}_{flavor}/Z={target[0]},A={target[1]}"
+                        views = {}
+                        try:
+                            for proj in (anti, part):
+                                cfg = H.make_configs(sy, process="CC", projectile=proj, scheme=scheme, nf_ff=nf_ff, pto=1, pto_evol=1, target=target)
+                                cfg.managers["coupling_constants"] = H.WStub(sy, "CC", H.PROJECTILES[proj], cc_spec=True)
+                                ks, _ = H.collect(sy, cfg, kind, flavor, nf, what="collect_elems")
+                                views[proj] = H.kernel_view(ks)
+                        except (NotImplementedError, ValueError):
+                            rep.extra["cells_rejected"] = rep.extra.get("cells_rejected", 0) + 1
+                            continue
+                        va, vp = views[anti], views[part]
+                        sgn = -1 if kind in H.PV_KINDS else 1
+                        bad = []
+                        if sorted(map(repr, va)) != sorted(map(repr, vp)):
+                            bad.append(("coefficient objects differ", sorted(map(repr, set(va) ^ set(vp)))[:2]))
+                        for key in va:
+                            if key not in vp:
+                                continue
+                            for k in sorted(set(va[key]) | {(-k if k != 21 else 21) for k in vp[key]}):
+                                ck = -k if k != 21 else 21
+                                a_, p_ = float(va[key].get(k, 0)), sgn * float(vp[key].get(ck, 0))
+                                if abs(a_ - p_) > 1e-12 * max(1.0, abs(a_), abs(p_)):
+                                    bad.append((f"{key[0][0]}.{key[0][1]}[{k}]", a_, p_))
+                        rep.add(ob_eval(name, not bad, kind="lemma", detail=f"{len(va)} kernel classes" + (f"; violated: {bad[:3]}" if bad else ""), inputs={} if not bad else {"cell": name, "violated (entry, anti-beam weight, conjugated beam weight)": str(bad[:3])}))
 
 
 def sec_flavour_symmetry(rep):
@@ -322,7 +365,7 @@ def run(rep, tier, seed, only=None):
         "A-np: numpy object-dtype arithmetic is the real reading of float64 arithmetic",
     )
     rep.stub("Combiner: eko nf_default -> enumerated nf (contract: C06)", "CouplingConstants.get_weight -> uninterpreted w (kernel-level lemmas)")
-    secs = [("decoupling", sec_decoupling), ("positron", sec_positron), ("cc", sec_cc_conjugation), ("flavour", sec_flavour_symmetry), ("tagged", sec_flavour_symmetry_tagged), ("xsconj", sec_xs_conjugation), ("svprojectors", sec_sv_projectors)]
+    secs = [("decoupling", sec_decoupling), ("positron", sec_positron), ("cc", sec_cc_conjugation), ("cctargets", sec_cc_conjugation_targets), ("flavour", sec_flavour_symmetry), ("tagged", sec_flavour_symmetry_tagged), ("xsconj", sec_xs_conjugation), ("svprojectors", sec_sv_projectors)]
     for nm, f in secs:
         if only and only not in nm:
             continue
